@@ -27,10 +27,12 @@ EntryOf(n) == s.entries[CHOOSE i \in DOMAIN s.entries : s.entries[i].name = n]
 Healthy == {s.entries[i].name : i \in {j \in DOMAIN s.entries : Launchable(s.entries[j]) /\ s.entries[j].behaviour \in {"healthy", "liar"}}}
 DieLater == {s.entries[i].name : i \in {j \in DOMAIN s.entries : Launchable(s.entries[j]) /\ s.entries[j].behaviour = "dielater"}}
 
-TBegin == Go("scenarios", [entries |-> Ev.entries, dropins |-> SetOf(Ev.dropins), started |-> FALSE])
+TBegin == Go("scenarios", [entries |-> Ev.entries, dropins |-> SetOf(Ev.dropins), started |-> FALSE, syncfails |-> Ev.syncfails])
 
 \* a plugin failing to start, register or synchronise never fails the start-up as a whole
-TStarted == IF Ev.err THEN Reject("C18-start-failed", <<Ev.errtext>>) ELSE Go("reports", [s EXCEPT !.started = TRUE])
+TStarted ==
+  IF s.syncfails THEN (IF Ev.err THEN Go("reports", s) ELSE Reject("C18-start-succeeded-unexpectedly", <<>>))   \* the runtime's callback failed
+  ELSE IF Ev.err THEN Reject("C18-start-failed", <<Ev.errtext>>) ELSE Go("reports", [s EXCEPT !.started = TRUE])
 
 TReport ==
   LET e == EntryOf(Ev.name) IN
@@ -40,7 +42,7 @@ TReport ==
   ELSE IF SetOf(Ev.env) # EnvOf(e) \/ Len(Ev.env) # 3 THEN Reject("C18-environment", <<Ev.name, Ev.env>>)
   ELSE IF Ev.fd3 # "socket" THEN Reject("C18-socket", <<Ev.name, Ev.fd3>>)
   ELSE IF Len(Ev.leaks) > 0 THEN Reject("C18-descriptor-leak", <<Ev.name, Ev.leaks>>)
-  ELSE IF e.behaviour \in {"healthy", "dielater", "failsync", "liar"} /\ ~Ev.configured THEN Reject("C18-not-configured", <<Ev.name>>)
+  ELSE IF ~s.syncfails /\ e.behaviour \in {"healthy", "dielater", "failsync", "liar"} /\ ~Ev.configured THEN Reject("C18-not-configured", <<Ev.name>>)
   ELSE IF Ev.configured /\ Ev.config # ConfigOf(e, s.dropins) THEN Reject("C18-configuration", <<Ev.name, Ev.config>>)
   ELSE Go("launched", s)
 
@@ -56,7 +58,8 @@ OrderOK(i) ==
   /\ Len(q) = Cardinality(SetOf(q))
   /\ SortedIdx(q)
 TOrder ==
-  IF ~OrderOK(1) THEN Reject("C18-invocation", <<1, NamesOf(1)>>)
+  IF s.syncfails THEN (IF Len(Ev.lines) > 0 THEN Reject("C18-invocation", <<0, Ev.lines>>) ELSE Go("reports", s))
+  ELSE IF ~OrderOK(1) THEN Reject("C18-invocation", <<1, NamesOf(1)>>)
   ELSE IF ~OrderOK(2) THEN Reject("C18-invocation", <<2, NamesOf(2)>>)
   ELSE IF ~OrderOK(3) THEN Reject("C18-invocation", <<3, NamesOf(3)>>)
   ELSE IF (SetOf(NamesOf(2)) \cup SetOf(NamesOf(3))) \cap DieLater # {} THEN Reject("C18-dead-plugin-invoked", <<NamesOf(2), NamesOf(3)>>)
